@@ -218,7 +218,12 @@ impl CustomRoller {
         continue;
       }
       if let Some(file_name) = path.file_name().and_then(|n| n.to_str()) {
-        if !file_name.starts_with(&self.policy.file_name_prefix) {
+        // Rolled files are named "{prefix}.{period}.{seq}{suffix}": require the '.' right
+        // after the prefix so a sibling appender ("{prefix}_x...") is never mistaken for ours.
+        if !file_name
+          .strip_prefix(self.policy.file_name_prefix.as_str())
+          .is_some_and(|rest| rest.starts_with('.'))
+        {
           continue;
         }
 
